@@ -183,9 +183,6 @@ theorem own_cell_kernels {ι V : Type} [DecidableEq ι] (kf : KernelFacts) (idxs
     writes only its own cell -- the two cases covered by the theorems above -/
 theorem all_kernels_thread_safe : Gen.allKernelFacts.all threadSafe = true := by decide +kernel
 
-/-- today no kernel is compiled with `parallel=True` at all -/
-theorem all_kernels_sequential : Gen.allKernelFacts.all (fun k => !(k.parallel && k.prange)) = true := by decide +kernel
-
 /-! ### dask graphs: any schedule, any number of workers, any timing relative to other calls -/
 
 /-- the functions handed to dask write no shared state and read none that anybody writes -/
